@@ -3,7 +3,7 @@
 P=$1
 cd /repo && git diff --quiet || { echo "/repo not clean"; exit 2; }
 git -C /repo apply $P || { echo "does not apply: $P"; exit 2; }
-IDS="C01 C02 C03 C05 C06 C07 C08 C09 C10 C11 C12 C13 C14 C15 C16 C18 C19 C20"
+IDS="C01 C02 C03 C05 C06 C07 C08 C09 C10 C11 C12 C13 C14 C15 C16 C17 C18 C19 C20"
 if grep -q "lorawan-device/\|lorawan-encoding/\|lora-modulation/" $P; then IDS="$IDS C04"; fi
 for id in $IDS; do
   (cd /verif && LRS_EVIDENCE_DIR=/tmp/ev-scratch ./check $id 2>&1 | awk '/^  C[0-9]|ERROR|Traceback|Error:/{print substr($0,1,330); n++} END{}' | head -5)
